@@ -276,3 +276,50 @@ Proof.
   - apply sends_le_max_plus_1.
   - unfold single. destruct (hd dflt_outcome fs); simpl; lia.
 Qed.
+
+(* ---- histories on one session ----------------------------------------------------------------- *)
+Lemma hist_cancelled_silent : forall ops fs ext_ok, total_sends (hist_run SCancelled ops fs ext_ok) = 0%nat.
+Proof.
+  induction ops as [|o r IH]; intros fs ext_ok; simpl; [reflexivity|].
+  destruct o; simpl; rewrite IH; reflexivity.
+Qed.
+
+Lemma cancel_le_total : forall l, (cancel_sends l <= total_sends l)%nat.
+Proof. induction l as [|[o t] r IH]; simpl; [lia|]. destruct o; lia. Qed.
+
+(* per session at most one cancel request ever leaves the client *)
+Lemma hist_cancel_once : forall ops st fs ext_ok, (cancel_sends (hist_run st ops fs ext_ok) <= 1)%nat.
+Proof.
+  induction ops as [|o r IH]; intros st fs ext_ok; simpl; [lia|].
+  destruct o; simpl.
+  - apply IH.
+  - unfold cancel_state_after.
+    pose proof (cancel_le_total (hist_run SCancelled r (skipn (xsends (cancel st fs)) fs) ext_ok)) as H.
+    rewrite hist_cancelled_silent in H.
+    assert (Hc : (xsends (cancel st fs) <= 1)%nat) by (destruct st; simpl; lia). lia.
+  - apply IH.
+Qed.
+
+(* once cancel() was called (whatever its POST did) no later operation sends anything *)
+Lemma hist_nothing_after_cancel : forall pre post st fs ext_ok,
+  exists fs', hist_run st (pre ++ HCancel :: post) fs ext_ok =
+              hist_run st (pre ++ [HCancel]) fs ext_ok ++ hist_run SCancelled post fs' ext_ok /\
+              total_sends (hist_run SCancelled post fs' ext_ok) = 0%nat.
+Proof.
+  induction pre as [|o r IH]; intros post st fs ext_ok.
+  - simpl. eexists. split; [reflexivity | apply hist_cancelled_silent].
+  - simpl. destruct (IH post (sess_after o st) (skipn (xsends (hop_run o st fs ext_ok)) fs) ext_ok) as [fs' [H1 H2]].
+    exists fs'. split; [rewrite H1; reflexivity | exact H2].
+Qed.
+
+(* every single operation of a history: exchange <= 2 (2 only after a 413), cancel <= 1, close 0 *)
+Lemma hist_each_op : forall ops st fs ext_ok,
+  Forall (fun e => (xsends (snd e) <= match fst e with HExchange => 2 | HCancel => 1 | HClose => 0 end)%nat)
+         (hist_run st ops fs ext_ok).
+Proof.
+  induction ops as [|o r IH]; intros st fs ext_ok; simpl; constructor; try apply IH.
+  destruct o; simpl.
+  - apply exchange_once_plus_413.
+  - destruct st; simpl; lia.
+  - lia.
+Qed.
